@@ -152,7 +152,7 @@ def strict(d):
     raise ValueError(d)
 
 
-def _num(x):
+def _num_eq(x):
     # python equality of numbers: True == 1 == 1.0, -0.0 == 0.0
     if isinstance(x, bool):
         x = int(x)
@@ -161,12 +161,24 @@ def _num(x):
     return ["num", repr(x)]
 
 
+def _num(x):
+    """Numbers are kept apart by KIND (bool / int / float): a plugin can tell True, 1 and 1.0 apart (and the
+    harness plugins do), so a brand-new context computes different rows for them and their keys must differ.
+    Only -0.0 / 0.0 are not told apart."""
+    if isinstance(x, bool):
+        return ["bool", repr(x)]
+    if isinstance(x, float):
+        return ["float", repr(x + 0.0 if x != 0 else 0.0)]
+    return ["int", repr(x)]
+
+
 def loose(d):
-    """Canonical form under which two values are certainly DIFFERENT when the forms differ: numbers by numeric
-    value (float32 scalars by their exact float64 value), list = tuple = array, dict = immutabledict."""
+    """Canonical form under which two values are certainly DIFFERENT when the forms differ: numbers by kind
+    (bool / int / float; numpy scalars by the kind and exact value json gives them) and value, list = tuple =
+    array, dict = immutabledict."""
     k = d["k"]
     if k in ("int", "float", "bool"):
-        return _num(d["v"])
+        return _num({"int": int, "float": float, "bool": bool}[k](d["v"]))
     if k == "str":
         return ["str", d["v"]]
     if k == "none":
@@ -186,6 +198,19 @@ def loose(d):
             return _num(float(v) if np.dtype(d["t"]).kind == "f" else int(v))
         return rec(d["v"])
     raise ValueError(d)
+
+
+def loose_eq(d):
+    """`loose` with numbers compared by python equality (True == 1 == 1.0): what a comparison of json-decoded
+    lineages with == (fuzzy matching) cannot tell apart."""
+    def rec(f):
+        if isinstance(f, list) and len(f) == 2 and f[0] in ("bool", "int", "float") and isinstance(f[1], str):
+            v = eval(f[1], {"inf": float("inf"), "nan": float("nan")})  # repr of a bool / int / float
+            return _num_eq(v)
+        if isinstance(f, list):
+            return [rec(y) for y in f]
+        return f
+    return rec(loose(d))
 
 
 def loose_of_object(x):
@@ -307,7 +332,7 @@ def match3(stored_lin, desired_lin, ffs, ffo):
     a, b = filter_lineage(stored_lin, ffs, ffo), filter_lineage(desired_lin, ffs, ffo)
     if canon(a, strict) == canon(b, strict):
         return "yes"
-    if canon(a, loose) != canon(b, loose):
+    if canon(a, loose_eq) != canon(b, loose_eq):
         return "no"
     return "either"
 
